@@ -16,7 +16,7 @@ RULE = ('seeded scripts over the public API built from round-number menus (so th
         'boundary): containers, transfers in L/g/mol/U, create_solution (pure and container solvent), create_solution_from, '
         'dilute, fill_to, remove, plate broadcasts and slices, then a recipe of the same vocabulary with stages and every '
         'tracking query; each script is run under every configuration of the tier (quick: 5 storage-unit pairs incl. both '
-        'unprefixed units x internal_precision {10, 12}; thorough: all 16 pairs x {8, 10, 12} in three fixed contexts) and '
+        'unprefixed units x internal_precision {10, 12}; thorough: all 16 pairs (x {10, 12} on the five quick pairs) in three fixed contexts) and '
         'every answer (volumes, moles, masses, concentrations in several units, instruction amounts, tracking answers, '
         'accept/refuse per step) is compared with the shipped configuration; evaluations = answers compared; non-trivial = '
         'a numeric answer != 0 compared under a configuration that differs from the shipped one; distinct by (script, answer, '
@@ -49,7 +49,7 @@ def configs(tier):
         for ctx in CONTEXTS:
             for m in MOL:
                 for v in VOL:
-                    for p in ((8, 10, 12) if (m, v) in QUICK_PAIRS else (10,)):
+                    for p in ((10, 12) if (m, v) in QUICK_PAIRS else (10,)):
                         out.append((ctx, {'moles_storage_unit': m, 'volume_storage_unit': v, 'internal_precision': p}))
     return out
 
@@ -371,6 +371,16 @@ def resolution(cfg, unit):
     return (qmol + qvol) * 1e4 / R.PREFIX[pf]
 
 
+def coarse_floor(cfg, nops):
+    """Relative floor of the comparison under a coarse storage configuration: the scripts handle volumes down to
+    0.5 uL and amounts down to 0.1 umol, each of which is stored to 10^-precision *storage units* (1e-10 L under
+    `volume_storage_unit: L`); every operation upstream of an answer may carry that relative error."""
+    from pv import refmodel as R
+    m_, v_, p_ = cfg.split('/')
+    q = 10.0 ** (-int(p_[1:]))
+    return nops * (q * R.PREFIX[v_[:-1]] / 5e-7 + q * R.PREFIX[m_[:-3]] / 1e-7)
+
+
 def finalize(m, tier):
     import hashlib
     import numpy
@@ -425,7 +435,7 @@ def finalize(m, tier):
                         xa, xb = xa * R.PREFIX[pa_], xb * R.PREFIX[pb_]
                         coarse = max(R.PREFIX[pa_], R.PREFIX[pb_])
                         prec_i = min(DISPLAY.get(a[2], DISPLAY['default']), DISPLAY.get(b[2], DISPLAY['default'])) if ctx != 'display' else 2
-                        ok = bool(abs(xa - xb) <= coarse * 10.0 ** (-prec_i) * 1.000001 + 1e-7 * abs(xb))
+                        ok = bool(abs(xa - xb) <= coarse * 10.0 ** (-prec_i) * 1.000001 + (1e-7 + coarse_floor(cfg, nops + 2)) * abs(xb))
                         if not ok:
                             violations.append(viol('C18:answer_depends_on_storage_configuration:instruction', ctx, idx, cfg, b, a))
                         continue
@@ -447,7 +457,7 @@ def finalize(m, tier):
                         if kind in ('volume_display', 'moles_display', 'mass_display', 'tracking', 'instruction', 'step_dataframe'):
                             prec = DISPLAY.get(unit, DISPLAY['default']) if ctx != 'display' else {'default': 5, 'uL': 2, 'umol': 3, 'mg': 2}.get(unit, 5)
                             tol = tol + 10.0 ** (-prec) * 1.000001
-                        ok = bool(numpy.all(numpy.abs(xa - xb) <= tol + 1e-7 * numpy.abs(xb)))
+                        ok = bool(numpy.all(numpy.abs(xa - xb) <= tol + (1e-7 + coarse_floor(cfg, nops + 2)) * numpy.abs(xb)))
                         if bool(numpy.any(xb != 0)):
                             nontrivial.add(hashlib.blake2b(f'{ctx}:{idx}:{label}:{cfg}'.encode(), digest_size=8).hexdigest())
                 if not ok:
